@@ -73,6 +73,8 @@ def order_cause(sc: dict, prog: dict, res: dict) -> str:
             why.add("http_exchange_post_log")
         if sc["tr"] == "pipe" and missing & {lg["id"] for lg in st["post"]}:
             why.add("pipe_post_log_met_at_exit")
+        if sc["tr"] == "http" and sc["kind"] == "prod" and missing & {lg["id"] for lg in st["post"]}:
+            why.add("http_producer_post_log_of_last_batch_taken")
     return "+".join(sorted(why, reverse=True)) or "none"
 
 
@@ -86,7 +88,7 @@ def part_order(ctx: Ctx, wd, worlds) -> None:
     max_steps, pres = (2, "{0, 2}") if quick else (3, "{0, 2}")     # 0 or 2 messages per slot (2 exercises their order)
     # one run: the clauses are invariants of the intended design; the designs "as found" / partially repaired are explored
     # side by side and only contribute their histories (what a real execution is compared with for drift)
-    designs = '{"intended", "found", "onlyE", "onlyT"}'
+    designs = '{"intended", "lazy"}'          # ("found" = the tree before 2c0e64a / e33f37e: kept in the spec, no longer explored)
     r = order_mc(ctx, wd, max_steps, pres, designs, f"LogOrder MaxSteps={max_steps} Pres={pres} (clauses on design=intended)")
     require_ok(r, "LogOrder intended design")
     cases: dict = {}
@@ -96,10 +98,10 @@ def part_order(ctx: Ctx, wd, worlds) -> None:
         if j["design"] in slot["designs"] and slot["designs"][j["design"]] != {"em": j["em"], "rv": j["rv"]}:
             raise RuntimeError(f"LogOrder model is not deterministic for {j['script']}")
         slot["designs"][j["design"]] = {"em": j["em"], "rv": j["rv"]}
-    ctx.extra["scripts_where_design_as_found_differs_from_intended"] = sum(
-        1 for c in cases.values() if c["designs"]["found"] != c["designs"]["intended"])
+    ctx.extra["scripts_where_design_lazy_http_iterator_differs_from_intended"] = sum(
+        1 for c in cases.values() if c["designs"]["lazy"] != c["designs"]["intended"])
     keys = sorted(cases)
-    budget = 1000 if quick else 9000          # the model is exhaustive; the replays are a seeded sample of its scripts
+    budget = 1000 if quick else 7000          # the model is exhaustive; the replays are a seeded sample of its scripts
     if len(keys) > budget:
         keep = set(ctx.rng.sample(keys, budget))
         ctx.extra["order_scripts_not_replayed_this_run"] = len(keys) - budget
@@ -182,7 +184,7 @@ def part_peer(ctx: Ctx) -> None:
     for cj in sorted(cases, key=lambda c: str(sorted(c["case"].items()))):
         c = cj["case"]
         allv = G.peer_variants(c, full=not ctx.quick)
-        variants = [(n % len(allv), allv[n % len(allv)])] if ctx.quick else list(enumerate(allv))
+        variants = [(n % len(allv), allv[n % len(allv)])] if ctx.quick else list(enumerate(allv))[:5]
         for vi, v in variants:
             n += 1
             real_pipe = c["tr"] == "pipe" and vi == 0 and (not ctx.quick or n % 4 == 0)
